@@ -361,6 +361,8 @@ def kernel_crashes(ctx):
     places = [("/dev/shm/verif_pk_%d" % os.getpid(), os.path.join(pk.SCRATCH, "tmp"), "other-fs"),
               (os.path.join(pk.SCRATCH, "piddir"), os.path.join(pk.SCRATCH, "tmp"), "same-fs")]
     jobs = [(c, n, st, pl) for pl in places for c in calls for n in ((1, 2, 3) if ctx.quick else (1, 2, 3, 4, 5)) for st in (False, True)]
+    # the configured path is a symbolic link (to a stale pid file, or dangling)
+    jobs += [(c, n, st, places[1]) for c in calls for n in ((1, 2) if ctx.quick else (1, 2, 3, 4)) for st in ("link", "dangling")]
     with ThreadPoolExecutor(max_workers=8) as ex:
         res = list(ex.map(lambda j: pk.run(j[0], j[1], j[3][0], j[3][1], j[2]), jobs))
     import shutil
@@ -380,7 +382,7 @@ def kernel_crashes(ctx):
     for t, m, (v, step) in zip(traces, metas, verdicts):
         if v == "ok":
             continue
-        ctx.violation("C17/%s/kernel-crash/%s,%s" % (v, m["place"], "stale" if m["stale"] else "fresh"),
+        ctx.violation("C17/%s/kernel-crash/%s,%s" % (v, m["place"], {True: "stale", False: "fresh"}.get(m["stale"], "symlink-" + str(m["stale"]))),
                       "%s: create() killed on entering %s #%d (%s, pid directory on %s): the path holds %r"
                       % (v, m["call"], m["n"], "stale file" if m["stale"] else "fresh path", m["place"], m["raw"]),
                       {"trace": t, "meta": m})
